@@ -5,7 +5,11 @@ package p2p
 import (
 	"time"
 
+	"github.com/aergoio/aergo-lib/log"
+	"github.com/aergoio/aergo/v2/p2p/p2pcommon"
+	"github.com/aergoio/aergo/v2/pkg/component"
 	"github.com/aergoio/aergo/v2/types"
+	"github.com/aergoio/aergo/v2/types/message"
 )
 
 // VerifC17State exposes the status (0 waiting, 1 canceled, 2 finished) and the number of blocks
@@ -20,3 +24,64 @@ func (br *BlocksChunkReceiver) VerifC17Expire() { br.timeout = time.Now().Add(-t
 
 // VerifC17Got returns the blocks accepted so far.
 func (br *BlocksChunkReceiver) VerifC17Got() []*types.Block { return br.got[:br.offset] }
+
+// ---- the request path below the syncer (deepening round 3): the real actor entry points of P2P
+// (actorwork.go GetSyncAncestor / GetBlockHashByNo / GetBlockHashes / GetBlocksChunk through P2P.Receive),
+// the real receivers, the real remotePeerImpl request table and the real sub-protocol handlers on both
+// ends, joined by a MsgReadWriter that the harness owns. Nothing here decides anything: constructors,
+// and the two loops (write, read) of a peer run by hand so that the exchange is one deterministic thread.
+
+// VerifC17NewP2P builds a P2P service object holding what the synchronisation requests touch: the peer
+// manager, the message-order factory, the chain accessor and the component hub it tells the syncer through.
+func VerifC17NewP2P(pm p2pcommon.PeerManager, ca types.ChainAccessor, hub *component.ComponentHub) *P2P {
+	p2ps := &P2P{pm: pm, ca: ca}
+	p2ps.BaseComponent = component.NewBaseComponent(message.P2PSvc, p2ps, log.NewLogger("p2p"))
+	p2ps.SetHub(hub)
+	p2ps.mf = &baseMOFactory{is: p2ps}
+	return p2ps
+}
+
+// VerifC17NewPeer is CreateRemotePeer without the role manager and the metrics listener: the real
+// remotePeerImpl with the real handlers of insertHandlers.
+func (p2ps *P2P) VerifC17NewPeer(id types.PeerID, rw p2pcommon.MsgReadWriter) p2pcommon.RemotePeer {
+	info := p2pcommon.RemoteInfo{Meta: p2pcommon.PeerMeta{ID: id}}
+	peer := newRemotePeer(info, 1, p2ps.pm, p2ps, p2ps.Logger, p2ps.mf, p2ps.signer, rw)
+	p2ps.insertHandlers(peer)
+	peer.state.SetAndGet(types.RUNNING)
+	return peer
+}
+
+// VerifC17Flush is the body of runWrite for everything queued: every order is sent with the real SendTo
+// (which files a request in the peer's request table and writes to the MsgReadWriter). Returns the count.
+func VerifC17Flush(peer p2pcommon.RemotePeer) int {
+	p := peer.(*remotePeerImpl)
+	n := 0
+	for {
+		select {
+		case m := <-p.writeBuf:
+			p.writeToPeer(m)
+			n++
+		default:
+			return n
+		}
+	}
+}
+
+// VerifC17Handle is the body of runRead for one message.
+func VerifC17Handle(peer p2pcommon.RemotePeer, msg p2pcommon.Message) error {
+	return peer.(*remotePeerImpl).handleMsg(msg)
+}
+
+// VerifC17Pending returns the number of requests the peer object still waits an answer for.
+func VerifC17Pending(peer p2pcommon.RemotePeer) int {
+	p := peer.(*remotePeerImpl)
+	p.reqMutex.Lock()
+	defer p.reqMutex.Unlock()
+	return len(p.requests)
+}
+
+// VerifC17ExpireRequests moves the time limit of the hash receivers into the past (TTL elapsed before
+// the answer). The three receivers keep it in a field `timeout`.
+func (br *BlockHashesReceiver) VerifC17Expire()   { br.timeout = time.Now().Add(-time.Hour) }
+func (br *BlockHashByNoReceiver) VerifC17Expire() { br.timeout = time.Now().Add(-time.Hour) }
+func (br *AncestorReceiver) VerifC17Expire()      { br.timeout = time.Now().Add(-time.Hour) }
